@@ -86,7 +86,7 @@ func ValidateFix(conf *Root) error {
 			return fmt.Errorf("filter_agg must be one of: and, or. got: %s", conf.Integrations[i].FilterAGG)
 		}
 		conf.Integrations[i].AddRequiredFields()
-		AddUniqueIndex(&conf.Integrations[i].Table)
+		conf.Integrations[i].addUniqueIndex()
 		if err := ValidateColRefs(conf.Integrations[i]); err != nil {
 			return fmt.Errorf("checking config for references: %w", err)
 		}
@@ -257,20 +257,43 @@ func ValidateColRefs(ig Integration) error {
 	return nil
 }
 
+var uniqueFields = []string{
+	"ig_name",
+	"src_name",
+	"block_num",
+	"tx_idx",
+	"log_idx",
+	"abi_idx",
+	"trace_action_idx",
+}
+
+// sets default unique columns unless already set by user.
+// An identity field that the user stores in a column of another
+// name contributes that column.
+func (ig *Integration) addUniqueIndex() {
+	if len(ig.Table.Unique) > 0 {
+		return
+	}
+	var uidx []string
+	for _, name := range uniqueFields {
+		for _, bd := range ig.Block {
+			if bd.Name == name && len(bd.Column) > 0 {
+				uidx = append(uidx, bd.Column)
+				break
+			}
+		}
+	}
+	if len(uidx) > 0 {
+		ig.Table.Unique = append(ig.Table.Unique, uidx)
+	}
+}
+
 // sets default unique columns unless already set by user
 func AddUniqueIndex(table *wpg.Table) {
 	if len(table.Unique) > 0 {
 		return
 	}
-	possible := []string{
-		"ig_name",
-		"src_name",
-		"block_num",
-		"tx_idx",
-		"log_idx",
-		"abi_idx",
-		"trace_action_idx",
-	}
+	possible := uniqueFields
 	var uidx []string
 	for i := range possible {
 		var found bool
@@ -484,9 +507,11 @@ func (ig *Integration) AddRequiredFields() {
 		return false
 	}
 	add := func(name, t string) {
-		if !hasBD(name) {
-			ig.Block = append(ig.Block, dig.BlockData{Name: name, Column: name})
+		if hasBD(name) {
+			// selected by the user; ValidateColRefs checks its column
+			return
 		}
+		ig.Block = append(ig.Block, dig.BlockData{Name: name, Column: name})
 		if !hasCol(name) {
 			ig.Table.Columns = append(ig.Table.Columns, wpg.Column{
 				Name: name,
